@@ -260,338 +260,65 @@ func execEqualityExprNotEqual(context *exprContext, expr *grammar.Grammar) error
 	return nil
 }
 
-func execRelationalExprLessThan(context *exprContext, expr *grammar.Grammar) error {
+// relationalOperands returns the numbers an operand of <, <=, > or >= stands
+// for.  The relational operators always compare numbers: a node-set stands for
+// the number value of the string-value of each of its nodes (the comparison is
+// true if it is true for any of them), except when the other operand is a
+// boolean, in which case the node-set is converted with boolean() first.
+func relationalOperands(operand, other Result) []float64 {
+	nodeSet, ok := operand.(NodeSet)
+
+	if !ok {
+		return []float64{operand.Number()}
+	}
+
+	if _, otherIsBool := other.(Bool); otherIsBool {
+		return []float64{Bool(nodeSet.Bool()).Number()}
+	}
+
+	numbers := make([]float64, 0, len(nodeSet))
+
+	for _, i := range nodeSet {
+		numbers = append(numbers, getStringNumber(GetCursorString(i)))
+	}
+
+	return numbers
+}
+
+func execRelationalExpr(context *exprContext, expr *grammar.Grammar, compare func(left, right float64) bool) error {
 	left, right, err := leftRightIndependentResult(context, expr)
 
 	if err != nil {
 		return err
 	}
 
-	leftNodeSet, leftNodeSetOk := left.(NodeSet)
-	rightNodeSet, rightNodeSetOk := right.(NodeSet)
+	rightNumbers := relationalOperands(right, left)
 
-	if leftNodeSetOk && rightNodeSetOk {
-		for _, leftNode := range leftNodeSet {
-			for _, rightNode := range rightNodeSet {
-				if GetCursorString(leftNode) < GetCursorString(rightNode) {
-					context.result = Bool(true)
-					return nil
-				}
-			}
-		}
-
-		context.result = Bool(false)
-		return nil
-	}
-
-	leftNumber, leftNumberOk := left.(Number)
-
-	if leftNumberOk && rightNodeSetOk {
-		for _, rightNode := range rightNodeSet {
-			if leftNumber < Number(getStringNumber(GetCursorString(rightNode))) {
+	for _, leftNumber := range relationalOperands(left, right) {
+		for _, rightNumber := range rightNumbers {
+			if compare(leftNumber, rightNumber) {
 				context.result = Bool(true)
 				return nil
 			}
 		}
-
-		context.result = Bool(false)
-		return nil
 	}
 
-	rightNumber, rightNumberOk := right.(Number)
-
-	if leftNodeSetOk && rightNumberOk {
-		for _, leftNode := range leftNodeSet {
-			if Number(getStringNumber(GetCursorString(leftNode))) < rightNumber {
-				context.result = Bool(true)
-				return nil
-			}
-		}
-
-		context.result = Bool(false)
-		return nil
-	}
-
-	leftString, leftStringOk := left.(String)
-
-	if leftStringOk && rightNodeSetOk {
-		for _, rightNode := range rightNodeSet {
-			if leftString < String(GetCursorString(rightNode)) {
-				context.result = Bool(true)
-				return nil
-			}
-		}
-
-		context.result = Bool(false)
-		return nil
-	}
-
-	rightString, rightStringOk := right.(String)
-
-	if leftNodeSetOk && rightStringOk {
-		for _, leftNode := range leftNodeSet {
-			if String(GetCursorString(leftNode)) < rightString {
-				context.result = Bool(true)
-				return nil
-			}
-		}
-
-		context.result = Bool(false)
-		return nil
-	}
-
-	context.result = Bool(left.Number() < right.Number())
+	context.result = Bool(false)
 	return nil
+}
+
+func execRelationalExprLessThan(context *exprContext, expr *grammar.Grammar) error {
+	return execRelationalExpr(context, expr, func(left, right float64) bool { return left < right })
 }
 
 func execRelationalExprLessThanOrEqual(context *exprContext, expr *grammar.Grammar) error {
-	left, right, err := leftRightIndependentResult(context, expr)
-
-	if err != nil {
-		return err
-	}
-
-	leftNodeSet, leftNodeSetOk := left.(NodeSet)
-	rightNodeSet, rightNodeSetOk := right.(NodeSet)
-
-	if leftNodeSetOk && rightNodeSetOk {
-		for _, leftNode := range leftNodeSet {
-			for _, rightNode := range rightNodeSet {
-				if GetCursorString(leftNode) <= GetCursorString(rightNode) {
-					context.result = Bool(true)
-					return nil
-				}
-			}
-		}
-
-		context.result = Bool(false)
-		return nil
-	}
-
-	leftNumber, leftNumberOk := left.(Number)
-
-	if leftNumberOk && rightNodeSetOk {
-		for _, rightNode := range rightNodeSet {
-			if leftNumber <= Number(getStringNumber(GetCursorString(rightNode))) {
-				context.result = Bool(true)
-				return nil
-			}
-		}
-
-		context.result = Bool(false)
-		return nil
-	}
-
-	rightNumber, rightNumberOk := right.(Number)
-
-	if leftNodeSetOk && rightNumberOk {
-		for _, leftNode := range leftNodeSet {
-			if Number(getStringNumber(GetCursorString(leftNode))) <= rightNumber {
-				context.result = Bool(true)
-				return nil
-			}
-		}
-
-		context.result = Bool(false)
-		return nil
-	}
-
-	leftString, leftStringOk := left.(String)
-
-	if leftStringOk && rightNodeSetOk {
-		for _, rightNode := range rightNodeSet {
-			if leftString <= String(GetCursorString(rightNode)) {
-				context.result = Bool(true)
-				return nil
-			}
-		}
-
-		context.result = Bool(false)
-		return nil
-	}
-
-	rightString, rightStringOk := right.(String)
-
-	if leftNodeSetOk && rightStringOk {
-		for _, leftNode := range leftNodeSet {
-			if String(GetCursorString(leftNode)) <= rightString {
-				context.result = Bool(true)
-				return nil
-			}
-		}
-
-		context.result = Bool(false)
-		return nil
-	}
-
-	context.result = Bool(left.Number() <= right.Number())
-	return nil
+	return execRelationalExpr(context, expr, func(left, right float64) bool { return left <= right })
 }
 
 func execRelationalExprGreaterThan(context *exprContext, expr *grammar.Grammar) error {
-	left, right, err := leftRightIndependentResult(context, expr)
-
-	if err != nil {
-		return err
-	}
-
-	leftNodeSet, leftNodeSetOk := left.(NodeSet)
-	rightNodeSet, rightNodeSetOk := right.(NodeSet)
-
-	if leftNodeSetOk && rightNodeSetOk {
-		for _, leftNode := range leftNodeSet {
-			for _, rightNode := range rightNodeSet {
-				if GetCursorString(leftNode) > GetCursorString(rightNode) {
-					context.result = Bool(true)
-					return nil
-				}
-			}
-		}
-
-		context.result = Bool(false)
-		return nil
-	}
-
-	leftNumber, leftNumberOk := left.(Number)
-
-	if leftNumberOk && rightNodeSetOk {
-		for _, rightNode := range rightNodeSet {
-			if leftNumber > Number(getStringNumber(GetCursorString(rightNode))) {
-				context.result = Bool(true)
-				return nil
-			}
-		}
-
-		context.result = Bool(false)
-		return nil
-	}
-
-	rightNumber, rightNumberOk := right.(Number)
-
-	if leftNodeSetOk && rightNumberOk {
-		for _, leftNode := range leftNodeSet {
-			if Number(getStringNumber(GetCursorString(leftNode))) > rightNumber {
-				context.result = Bool(true)
-				return nil
-			}
-		}
-
-		context.result = Bool(false)
-		return nil
-	}
-
-	leftString, leftStringOk := left.(String)
-
-	if leftStringOk && rightNodeSetOk {
-		for _, rightNode := range rightNodeSet {
-			if leftString > String(GetCursorString(rightNode)) {
-				context.result = Bool(true)
-				return nil
-			}
-		}
-
-		context.result = Bool(false)
-		return nil
-	}
-
-	rightString, rightStringOk := right.(String)
-
-	if leftNodeSetOk && rightStringOk {
-		for _, leftNode := range leftNodeSet {
-			if String(GetCursorString(leftNode)) > rightString {
-				context.result = Bool(true)
-				return nil
-			}
-		}
-
-		context.result = Bool(false)
-		return nil
-	}
-
-	context.result = Bool(left.Number() > right.Number())
-	return nil
+	return execRelationalExpr(context, expr, func(left, right float64) bool { return left > right })
 }
 
 func execRelationalExprGreaterThanOrEqual(context *exprContext, expr *grammar.Grammar) error {
-	left, right, err := leftRightIndependentResult(context, expr)
-
-	if err != nil {
-		return err
-	}
-
-	leftNodeSet, leftNodeSetOk := left.(NodeSet)
-	rightNodeSet, rightNodeSetOk := right.(NodeSet)
-
-	if leftNodeSetOk && rightNodeSetOk {
-		for _, leftNode := range leftNodeSet {
-			for _, rightNode := range rightNodeSet {
-				if GetCursorString(leftNode) >= GetCursorString(rightNode) {
-					context.result = Bool(true)
-					return nil
-				}
-			}
-		}
-
-		context.result = Bool(false)
-		return nil
-	}
-
-	leftNumber, leftNumberOk := left.(Number)
-
-	if leftNumberOk && rightNodeSetOk {
-		for _, rightNode := range rightNodeSet {
-			if leftNumber >= Number(getStringNumber(GetCursorString(rightNode))) {
-				context.result = Bool(true)
-				return nil
-			}
-		}
-
-		context.result = Bool(false)
-		return nil
-	}
-
-	rightNumber, rightNumberOk := right.(Number)
-
-	if leftNodeSetOk && rightNumberOk {
-		for _, leftNode := range leftNodeSet {
-			if Number(getStringNumber(GetCursorString(leftNode))) >= rightNumber {
-				context.result = Bool(true)
-				return nil
-			}
-		}
-
-		context.result = Bool(false)
-		return nil
-	}
-
-	leftString, leftStringOk := left.(String)
-
-	if leftStringOk && rightNodeSetOk {
-		for _, rightNode := range rightNodeSet {
-			if leftString >= String(GetCursorString(rightNode)) {
-				context.result = Bool(true)
-				return nil
-			}
-		}
-
-		context.result = Bool(false)
-		return nil
-	}
-
-	rightString, rightStringOk := right.(String)
-
-	if leftNodeSetOk && rightStringOk {
-		for _, leftNode := range leftNodeSet {
-			if String(GetCursorString(leftNode)) >= rightString {
-				context.result = Bool(true)
-				return nil
-			}
-		}
-
-		context.result = Bool(false)
-		return nil
-	}
-
-	context.result = Bool(left.Number() >= right.Number())
-	return nil
+	return execRelationalExpr(context, expr, func(left, right float64) bool { return left >= right })
 }
